@@ -321,7 +321,8 @@ func startHttpServer(c *config.Config, httpServer **http.Server,
 		}
 		mux.Handle("/metrics", middlewareHandler)
 
-		statusHandler = middlewarestd.Handler("status", metricsMdlw, http.HandlerFunc(h.StatusPageHandler)).ServeHTTP
+		sh := statusHandler // Keep the authentication wrapper (if any).
+		statusHandler = middlewarestd.Handler("status", metricsMdlw, sh).ServeHTTP
 
 		ch := cacheHandler // Avoid an infinite loop in the closure below.
 		cacheHandler = func(w http.ResponseWriter, r *http.Request) {
